@@ -10,26 +10,26 @@ NOTE = ('trusted: z3; go/ssa; the gosym encoder (validated each run by replaying
         'the Go reference models in harness/zz_verif_ref.go (validated natively against encoding/json, strconv, unicode/utf8); amd64')
 
 CHECKS = {
- 'C01': ('model_checking', 'For every byte string of length <= N (quick 7, thorough 10) and Buffer nil / fresh / used-with-arbitrary-contents, Valid equals the RFC 8259 reference verdict; all 256^n inputs are covered by the solver-checked partition of path classes, none sampled.', '6.1'),
- 'C02': ('model_checking', 'For every byte string of length <= N, SkipValue succeeds exactly when the reference one-pass RFC 8259 reader does and returns the same end offset (every value followed by every next byte, every truncation).', '6.2'),
- 'C04': ('model_checking', 'Per-tier solver obligations over the SSA of internal/fp: (T1) the literal scanner readFloat against the RFC 8259 number grammar and the mantissa/exponent/truncation decomposition on all strings <= N and long-digit templates; (T2) atof64exact for every accepted exponent and every mantissa in an exact-rational model of IEEE arithmetic; (T3) Eisel-Lemire: for every one of the 696 table rows and every 64-bit mantissa, a result returned with ok is the correctly rounded binary64 (linear integer arithmetic, R-ROUND). (T4) the glue of ParseJSONFloatPrefix (order of tiers, !trunc guard, truncated-mantissa re-check, error plumbing) against the tiers\' contracts on literal templates. (T5) units of the multi-precision fallback: leftShift and rightShift exactness on short operands, decimal.set leaves a decimal denoting the literal (also across its 800-digit buffer), RoundedInteger is nearest-even on short operands, and floatBits is run for real over an abstract exact decimal whose Shift/RoundedInteger follow those contracts (subnormal, overflow and halfway templates). NOT established: the unit contracts for operands longer than the stated bounds, truncation beyond 800 digits (stated in evidence.outside).', '6.4'),
+ 'C01': ('model_checking', 'For every byte string of length <= N (quick 7, thorough 10) and Buffer nil / fresh / used-with-arbitrary-contents, Valid equals the RFC 8259 reference verdict; all 256^n inputs are covered by the solver-checked partition of path classes, none sampled. Also long concrete documents (35-65 bytes) with a window of one (thorough: two) free bytes at every offset.', '6.1'),
+ 'C02': ('model_checking', 'For every byte string of length <= N, SkipValue succeeds exactly when the reference one-pass RFC 8259 reader does and returns the same end offset (every value followed by every next byte, every truncation). Also long concrete documents (35-65 bytes) with a window of one (thorough: two) free bytes at every offset.', '6.2'),
+ 'C04': ('model_checking', 'Per-tier solver obligations over the SSA of internal/fp: (T1) the literal scanner readFloat against the RFC 8259 number grammar and the mantissa/exponent/truncation decomposition on all strings <= N and long-digit templates; (T2) atof64exact for every accepted exponent and every mantissa in an exact-rational model of IEEE arithmetic; (T3) Eisel-Lemire: for every one of the 696 table rows and every 64-bit mantissa, a result returned with ok is the correctly rounded binary64 (linear integer arithmetic, R-ROUND). (T4) the glue of ParseJSONFloatPrefix (order of tiers, !trunc guard, truncated-mantissa re-check, error plumbing) against the tiers\' contracts on literal templates. (T5) units of the multi-precision fallback: leftShift and rightShift exactness on short operands, decimal.set leaves a decimal denoting the literal (also across its 800-digit buffer), RoundedInteger is nearest-even on short operands, and floatBits is run for real over an abstract exact decimal whose Shift/RoundedInteger follow those contracts (subnormal, overflow and halfway templates). NOT established: the unit contracts for operands longer than the stated bounds, truncation beyond 800 digits (stated in evidence.outside). Also: the scanner and decimal.set on literals of 100 008 bytes whose exponent cancels their digit count (a reported exponent beyond the fast tiers\' table must mean a value beyond it: saturated-exponent contract), and (T5f) for every binade and every even mantissa the exact halfway point fits the digit buffer whose length is read from the code (one integer inequality per binade).', '6.4'),
  'C05': ('model_checking', 'All six integer readers on every byte string <= N and on digit templates (optional sign, up to 21 symbolic bytes, look-ahead byte): success iff integer literal in range (decimal-string comparison oracle), exact value (integer-arithmetic encoding with explicit wrap), offset after the last digit.', '6.5'),
- 'C06': ('model_checking', 'ReadStringBytes / ReadString / UnescapeStringContent on every byte string <= N and on escape templates (all 65,536 code units, all 2^32 surrogate combinations, escapes next to arbitrary bytes) with arbitrary destination prefix and spare capacity: success, offset and every output byte equal the RFC 8259 reference decoder.', '6.6'),
+ 'C06': ('model_checking', 'ReadStringBytes / ReadString / UnescapeStringContent on every byte string <= N and on escape templates (all 65,536 code units, all 2^32 surrogate combinations, escapes next to arbitrary bytes) with arbitrary destination prefix and spare capacity: success, offset and every output byte equal the RFC 8259 reference decoder. Also 38-45 byte string tokens with a window of free bytes at every offset.', '6.6'),
  'C07': ('model_checking', 'HandleArrayValues / HandleObjectValues with a handler that nondeterministically returns 0 or the exact end per call: success iff well-formed container or null; on success call count, order, value start and raw key bytes match the reference member list and the offset is the container end.', '6.7'),
  'C09': ('model_checking', 'A handler failing at call k (k < K) with a free 64-bit offset: the returned error is the identical value and no further call is made, for every input <= N.', '6.9'),
- 'C10': ('model_checking', 'No feasible path reaches a Go runtime panic and every (offset, nil) result is within the input, for every entry point on every input <= N, every Buffer state, and a handler returning a free 64-bit offset at every call; out-of-range handler offsets yield an error.', '6.10'),
- 'C11': ('model_checking', 'Whenever SkipValue succeeds on an input <= N (or on the nested-string templates), SkipValueFast succeeds with the same offset.', '6.11'),
+ 'C10': ('model_checking', 'No feasible path reaches a Go runtime panic and every (offset, nil) result is within the input, for every entry point on every input <= N, every Buffer state, and a handler returning a free 64-bit offset at every call; out-of-range handler offsets yield an error. Also long documents/strings with a window of free bytes at every offset, and the UTF-8 helpers at every tight destination capacity.', '6.10'),
+ 'C11': ('model_checking', 'Whenever SkipValue succeeds on an input <= N (or on the nested-string templates), SkipValueFast succeeds with the same offset. Also long concrete documents and arrays whose first structural byte sits at every distance 1..18 from the bracket, with a window of free bytes at every offset.', '6.11'),
  'C12': ('model_checking', 'Decode{Int*,Uint*,Bool,String} with a free prior target: reader success => same offset and stored value; literal null => offset after null, target untouched; otherwise error and target untouched.', '6.12'),
- 'C13': ('model_checking', 'NextToken / NextTokenType / ReadBool / ReadNull on every byte string <= N against the fixed token table and literal matcher.', '6.13'),
+ 'C13': ('model_checking', 'NextToken / NextTokenType / ReadBool / ReadNull on every byte string <= N against the fixed token table and literal matcher. Also whitespace runs of 17-40 bytes with a window of free bytes at every offset.', '6.13'),
  'C14': ('model_checking', 'Each Buffer-taking function called with an arbitrary used Buffer (arbitrary stack length/contents) gives the outcome of the nil-Buffer call, also when the handler re-enters any of the five functions with the same Buffer; an arbitrary slice covers every call history.', '6.14'),
  'C03': ('model_checking', 'ReadValue / ReadObject / ReadArray (fresh reader) on every byte string <= N and on tree-shape templates (duplicate, colliding and escaped keys, empty containers, nesting): success, offset and the whole value tree equal the reference decoder (maps with last duplicate winning); ReadObject/ReadArray reject every other value type including null. Numbers by contract (C04).', '6.3'),
  'C08': ('model_checking', 'A decoder composed from the public API with a nondeterministic choice of admissible call per token (typed readers, SkipValue, SkipValueFast, nested Handle*Values) finishes at the reference end offset whenever direct decoding succeeds, and its validating variant fails whenever it fails.', '6.8'),
- 'C15': ('model_checking', 'Two- and three-call histories on one ValueReader over template documents (successes, syntax errors, depth-limit exits with the limit scaled to 3): each later result equals a fresh reader\'s, earlier results stay equal to their reference value also after the caller mutates later results.', '6.15'),
+ 'C15': ('model_checking', 'Two- and three-call histories on one ValueReader over template documents (successes, syntax errors, depth-limit exits with the limit scaled to 3): each later result equals a fresh reader\'s, earlier results stay equal to their reference value also after the caller mutates later results. Also with the caller\'s input buffer reused between the calls (second document written over the first one\'s bytes).', '6.15'),
  'C16': ('model_checking', 'Every entry point leaves its input bytes equal to a snapshot (and no store ever targets an input object); appending functions keep an arbitrary destination prefix for every spare capacity; results do not depend on dirty scratch contents; returned strings/trees equal their reference value after inputs and buffers are overwritten.', '6.16'),
- 'C18': ('other', 'Footprint lemma, not schedule exploration: static taint analysis over the SSA shows no write to memory reachable from a package-level variable outside init, and symbolic runs of every entry point raise no global-write event; race freedom for calls sharing read-only inputs then follows from DRF-SC (cited). A reported breach is confirmed with a goroutine battery under -race before it is printed.', '6.18'),
+ 'C18': ('other', 'Footprint lemma, not schedule exploration: static taint analysis over the SSA shows no write to memory reachable from a package-level variable outside init, and symbolic runs of every entry point raise no global-write event; race freedom for calls sharing read-only inputs then follows from DRF-SC (cited). A reported breach is confirmed with a goroutine battery under -race before it is printed. sync/atomic operations other than loads on package-level variables count as writes; the confirmation battery includes deeply nested and long documents.', '6.18'),
  'C19': ('model_checking', 'With a Buffer warmed by the same call on the same document (and optionally used on another, possibly failing, input in between), destination capacity >= input length and a non-allocating handler, no success path of the listed functions reaches an allocation site (sites per the compiler escape analysis + append growth + map/fmt), for every input <= N and escape/nesting/long-number templates; the float conversion closure contains no allocation site (SSA scan).', '6.19'),
- 'C17': ('model_checking', 'StdLibCompatibleString / StdLibCompatibleStringBytes on every byte string <= N (every 1-4 byte sequence class) equal the RFC 3629 sanitiser; idempotent; destination prefix kept.', '6.17'),
- 'C20': ('model_checking', 'Marginal-cost obligations with symbolic size hints: two documents that differ by one extra member / nesting level / escape are decoded from the same arbitrary reader state (six free size hints on the reader and a pooled child); allocated bytes plus the potential left in the hints may grow by at most 1536 B per added input byte + 4096 B. Allocation sizes come from a stated cost model over the SSA (make/append/map/conversion); violations are replayed natively with runtime.MemStats. Known finding: scratch growth to the unread remainder (not repaired).', '6.20'),
+ 'C17': ('model_checking', 'StdLibCompatibleString / StdLibCompatibleStringBytes on every byte string <= N (every 1-4 byte sequence class) equal the RFC 3629 sanitiser; idempotent; destination prefix kept. Also 70-140 byte strings of 1/2/3/4-byte characters at every alignment with a window of one (thorough: two) free bytes at every offset.', '6.17'),
+ 'C20': ('model_checking', 'Marginal-cost obligations with symbolic size hints: two documents that differ by one extra member / nesting level / escape are decoded from the same arbitrary reader state (six free size hints on the reader and a pooled child); allocated bytes plus the potential left in the hints may grow by at most 1536 B per added input byte + 4096 B. Allocation sizes come from a stated cost model over the SSA (make/append/map/conversion); violations are replayed natively with runtime.MemStats. Known finding: scratch growth to the unread remainder (not repaired). Plus a single-call obligation: one call (well-formed, truncated, wrong type, null, empty input) from the same arbitrary reader state must satisfy cost + potential of the hints it leaves - potential of the hints it found <= A*len + B, i.e. a call that pays for a hint uses it up.', '6.20'),
 }
 
 NA = {
@@ -73,7 +73,7 @@ def main():
                      'kind_free_text': 'symbolic executor for go/ssa exported by engine/ssaexport from the current /repo tree; z3 (BV + integer encoding) decides branch feasibility, assertions and runtime checks; native replay of models'}],
         'checks': checks,
         'not_applicable': na,
-        'notes': 'fix: commits in /repo: 01b361b, 18ed757 (C10), 9f2a736 (C20), 89826e9 (C04); see known_findings.txt.',
+        'notes': 'fix: commits in /repo: 01b361b, 18ed757 (C10), 9f2a736, be8c7ee (C20), 89826e9, f8cd401 (C04); see known_findings.txt.',
     }
     json.dump(m, open('/verif/MANIFEST.json', 'w'), indent=1)
     print('checks', len(checks), 'not_applicable', len(na))
